@@ -627,39 +627,61 @@ func runTCP(toks []string) (string, error) {
 	// a direction is over when its half-close reached the sink; for a sink on which no half-close is
 	// observable: when the goroutine has left its loop (plus a moment for what it does on the way out)
 	settled := map[*gconn]bool{}
+	leftAt := map[*gconn]time.Time{}
 	fin := func(src, sink *gconn) bool {
 		if sink.isCW() || returned.Load() {
 			return true
 		}
-		if sink.kind != "cw" && loopLeft(src, sink) {
-			if !settled[sink] {
-				settled[sink] = true
-				time.Sleep(300 * time.Microsecond)
+		if loopLeft(src, sink) {
+			if sink.kind != "cw" {
+				if !settled[sink] {
+					settled[sink] = true
+					time.Sleep(300 * time.Microsecond)
+				}
+				return true
 			}
-			return true
+			// a sink with CloseWrite is half-closed right after the loop is left; if that does not happen
+			// (it always does in the code as built) do not wait for it longer than this
+			if t0, ok := leftAt[sink]; !ok {
+				leftAt[sink] = time.Now()
+			} else if time.Since(t0) > 100*time.Millisecond {
+				return true
+			}
 		}
 		return false
 	}
 	finAB := func() bool { return fin(A, B) }
 	finBA := func() bool { return fin(B, A) }
+	// one turn of a copy goroutine; a goroutine whose source is a passive peer (script exhausted, tail
+	// "hold") sits in a Read that only returns after the relay has told that peer (half-close): no grant then
+	turn := func(src, sink *gconn, spec epSpec, fin func() bool, hold bool) {
+		if sink.isHeld() || fin() || s.stalls > 0 {
+			return
+		}
+		if src.exhausted() && spec.tail == "hold" {
+			if src.isCW() { // told: the Read returns EOF by itself, the goroutine leaves its loop
+				if !waitUntil(fin, stallTimeout) {
+					s.stall()
+				}
+			}
+			return
+		}
+		if hold {
+			s.grantHeld(src, sink, fin)
+		} else {
+			s.grant(src, fin)
+		}
+	}
 	for _, t := range sc {
 		switch t {
 		case 'a':
-			if !B.isHeld() {
-				s.grant(A, finAB)
-			}
+			turn(A, B, ea, finAB, false)
 		case 'b':
-			if !A.isHeld() {
-				s.grant(B, finBA)
-			}
+			turn(B, A, eb, finBA, false)
 		case 'A': // slow sink B: the Write of this iteration stays in progress
-			if !B.isHeld() {
-				s.grantHeld(A, B, finAB)
-			}
+			turn(A, B, ea, finAB, true)
 		case 'B':
-			if !A.isHeld() {
-				s.grantHeld(B, A, finBA)
-			}
+			turn(B, A, eb, finBA, true)
 		case 'x':
 			s.complete(A, B, finAB)
 		case 'y':
@@ -669,11 +691,12 @@ func runTCP(toks []string) (string, error) {
 	s.complete(A, B, finAB)
 	s.complete(B, A, finBA)
 	for i := 0; i < stepsFor(ea.chunks) && !finAB(); i++ {
-		s.grant(A, finAB)
+		turn(A, B, ea, finAB, false)
 	}
 	for i := 0; i < stepsFor(eb.chunks) && !finBA(); i++ {
-		s.grant(B, finBA)
+		turn(B, A, eb, finBA, false)
 	}
+	turn(A, B, ea, finAB, false)
 	select {
 	case rr := <-ch:
 		if rr.panic != "" {
